@@ -23,7 +23,8 @@ RULE = (
     "same types inlined at their first use in document order (reference inliner); load_schema_ordered over EVERY "
     "dependencies-first order agrees; with any ONE file removed (and, for a namespaced type, an unrelated null-namespace decoy file with the same short name present) "
     "an error naming exactly the missing type is raised; the first realisations are repeated with the repository files being "
-    "symbolic links into separate directories. "
+    "symbolic links into separate directories, and with the full name spelled in \"name\" instead of a namespace attribute; a reference "
+    "to a type whose name is too long to be a file name must be reported like any other missing type. "
     "distinct_nontrivial = distinct (graph, namespaces, realisation) repositories."
 )
 ASSUMPTIONS = [
@@ -113,12 +114,15 @@ def use(kind, name):
     return ["null", name]
 
 
-def build_files(n, es, kinds, ns, real):
+def build_files(n, es, kinds, ns, real, spelling="attribute"):
     files = {}
     for i in range(n):
         d = {"type": kinds[i], "name": TNAMES[i]}
         if ns[i]:
-            d["namespace"] = ns[i]
+            if spelling == "dotted-name":
+                d["name"] = ns[i] + "." + TNAMES[i]  # the full name spelled in "name", no namespace attribute
+            else:
+                d["namespace"] = ns[i]
         if kinds[i] == "enum":
             d["symbols"] = ["S%d" % i, "Z"]
         elif kinds[i] == "fixed":
@@ -161,7 +165,7 @@ def inline_first_use(files, root):
     def define(fn):
         done.add(fn)
         d = copy.deepcopy(files[fn])
-        space = d.get("namespace", "")
+        space = d.get("namespace", d["name"].rsplit(".", 1)[0] if "." in d["name"] else "")
         if d["type"] == "record":
             d["fields"] = [dict(f, type=walk(f["type"], space)) for f in d["fields"]]
         return d
@@ -196,7 +200,7 @@ def check_repo(fa, res, tmpdir, n, es, kinds, ns, real, seen, tier, layout="plai
     from fastavro._schema_common import UnknownType
     from fastavro.repository.base import SchemaRepositoryError
 
-    files = build_files(n, es, kinds, ns, real)
+    files = build_files(n, es, kinds, ns, real, "dotted-name" if layout == "dotted-name" else "attribute")
     root = full(0, ns)
     ident = json.dumps([n, es, kinds, ns, real, layout])
     if ident in seen:
@@ -267,6 +271,29 @@ def check_repo(fa, res, tmpdir, n, es, kinds, ns, real, seen, tier, layout="plai
         if c2 != want_canon:
             res.add(Violation("c19.ordered", "ordered-differs", f"load_schema_ordered({order}) -> {c2!r}, expected {want_canon!r} | {short(info, 300)}", dict(info, order=order)))
             break
+    # a reference to a type that has no file, under a name too long to be a file name at all
+    if layout == "plain" and real == tuple(("field", True, False) for _ in es):
+        res.evals += 1
+        longname = "Missing" + "x" * 260
+        root_def = copy.deepcopy(files[root])
+        root_def["fields"] = root_def["fields"] + [{"name": "gone", "type": longname if not ns[0] else ns[0] + "." + longname}]
+        with open(os.path.join(d, root + ".avsc"), "w") as f:
+            json.dump(root_def, f)
+        want_name = longname if not ns[0] else ns[0] + "." + longname
+        try:
+            fa.schema.load_schema(os.path.join(d, root + ".avsc"))
+            outcome = ("no error", None)
+        except UnknownType as e:
+            outcome = ("UnknownType", e.name)
+        except SchemaRepositoryError as e:
+            outcome = ("SchemaRepositoryError", str(e))
+        except Exception as e:
+            outcome = (type(e).__name__, str(e)[:100])
+        finally:
+            with open(os.path.join(d, root + ".avsc"), "w") as f:
+                json.dump(files[root], f)
+        if not ((outcome[0] == "UnknownType" and outcome[1] == want_name) or (outcome[0] == "SchemaRepositoryError" and want_name in outcome[1])):
+            res.add(Violation("c19.missing", f"missing-file-not-named:{outcome[0]}:long-name", f"reference to a type without file (name of 267 characters): {outcome[0]} {str(outcome[1])[:60]}; the error must name it | {short(info, 200)}", dict(info, missing=want_name)))
     # any one file missing
     for miss in files:
         res.evals += 1
@@ -315,6 +342,9 @@ def run_unit(unit, tier):
                 check_repo(fa, res, tmpdir, n, es, kinds, ns, real, seen, tier)
             for real in reals[:3]:
                 check_repo(fa, res, tmpdir, n, es, kinds, ns, real, seen, tier, layout="symlinks")
+            if any(ns):
+                for real in reals[:40:3]:
+                    check_repo(fa, res, tmpdir, n, es, kinds, ns, real, seen, tier, layout="dotted-name")
     finally:
         shutil.rmtree(tmpdir, ignore_errors=True)
     res.distinct = len(seen)
